@@ -5,12 +5,14 @@ World *make_world_h();
 World *make_world_l();
 World *make_world_si();
 World *make_world_so();
+World *make_world_p();
 World *make_world(const std::string &name) {
   if (name == "Q") return make_world_q();
   if (name == "H") return make_world_h();
   if (name == "L") return make_world_l();
   if (name == "SI") return make_world_si();
   if (name == "SO") return make_world_so();
+  if (name == "P") return make_world_p();
   return nullptr;
 }
 }  // namespace sim
